@@ -145,7 +145,7 @@ def run(tier, seed):
                     "distinct = distinct (program, outcome shape) pairs where outcome shape = (result code, #hooks, state changed)")
     items = programs(tier, seed)
     stats = dict(accepted=0, rejected=0, cbuild_failed=0, ub_skipped=0, spin_skipped=0)
-    for idx, r in pmap(check_program, items, timeout=600, chunksize=1):
+    for idx, r in pmap(check_program, items, timeout=600, chunksize=1, stop=ck.enough):
         if "harness_error" in r or "harness_timeout" in r:
             harness_fail("%s on %s" % (r, items[idx]["label"]))
         if r["status"] == "cbuild_failed":
